@@ -55,3 +55,22 @@ claim("C18", "proof",
       "definition for all inputs (has_zero_byte_first over all 2^64 words). Assembly kernels: exhaustive-bounded observation (lengths, "
       "hit positions, alignments, guard pages, AVX2 on/off) against the same definitions; a sample re-evaluated inside Coq.",
       NOTE_COMMON, "Coq proof (SWAR lane induction) + exhaustive-bounded differential for assembly", "9/C18")
+_RX = ("Coq theorems about the reference search on the byte-level Thompson NFA (priority DFS with visited set): match reported iff an "
+       "accepting path exists, leftmost start, inside the haystack, fuel never exhausted, captures well-formed; the bounded backtracker "
+       "equals it from any reusable state. Per run: every corpus pattern's NFA is dumped from the current compiler, checked well-formed "
+       "and simulated by the extracted model; the reference result and every top-level API are compared with regexp on a fixed corpus "
+       "with an exact ledger of recorded failing inputs. That the compiler/strategy layer is correct for ALL patterns is not proved "
+       "(per-pattern check + C14/C15/C19).")
+claim("C01", "proof", _RX, NOTE_COMMON + " Extraction of the reference uses ExtrOcamlBasic + ExtrOcamlNatInt (nat -> int).",
+      "Coq proof (reference NFA simulation = path semantics) + extracted model on dumped NFAs + differential vs regexp", "9/C01")
+claim("C02", "proof", _RX, NOTE_COMMON + " Extraction of the reference uses ExtrOcamlBasic + ExtrOcamlNatInt (nat -> int).",
+      "Coq proof (leftmost start, leftmost-first by priority DFS) + extracted model on dumped NFAs + differential vs regexp", "9/C02")
+claim("C03", "proof", _RX, NOTE_COMMON + " Extraction of the reference uses ExtrOcamlBasic + ExtrOcamlNatInt (nat -> int).",
+      "Coq proof (capture well-formedness of the reference) + extracted model on dumped NFAs + differential vs regexp", "9/C03")
+claim("C14", "proof",
+      "Coq theorems: the bounded backtracker (all entry points, both modes, any reusable state) equals the reference search and declines "
+      "exactly when CanHandle is false. Per run: every engine entry point (PikeVM, BoundedBacktracker, lazy DFA forward/anchored/earliest/"
+      "reverse under 5 cache configurations incl. a one-state cache, one-pass DFA) is compared with the extracted reference on the SAME "
+      "dumped NFA over exhaustive short haystacks and all offsets, with an exact ledger. PikeVM/lazy DFA/one-pass are not modelled in Coq.",
+      NOTE_COMMON + " Extraction: ExtrOcamlBasic + ExtrOcamlNatInt.",
+      "Coq proof (backtracker = reference) + extracted reference vs every engine entry point on dumped NFAs", "9/C14")
